@@ -93,12 +93,15 @@ def unq(s):
     return json.loads('"' + s + '"')
 
 
-def validate_trace(trace, workdir):
-    """TLC over spec/Trace.tla; returns (nlines, findings[list of dict with i, l, kind, m, atom, props])"""
+def validate_trace(trace, workdir, spec="Trace"):
+    """TLC over spec/Trace.tla (or WideTrace.tla for reduced wide-range lines); returns
+    (nlines, findings[list of dict with i, l, kind, m, atom, props])"""
     n = sum(1 for _ in open(trace))
     if n == 0:
         raise ToolError("empty trace " + trace)
-    rc, out, wall = tlc(os.path.join(SPEC, "Trace.tla"), os.path.join(SPEC, "Trace.cfg"), workdir,
+    if spec == "Trace" and '"callj"' in open(trace).readline():
+        spec = "WideTrace"
+    rc, out, wall = tlc(os.path.join(SPEC, spec + ".tla"), os.path.join(SPEC, spec + ".cfg"), workdir,
                         env={"TRACE": trace}, workers=1, timeout=1800, xmx="8g")
     findings = []
     consumed = False
@@ -128,7 +131,13 @@ def is_known(prop, f, known):
     for k in known:
         if k["property"] != prop:
             continue
-        if all(str(f.get(kk)) == str(vv) for kk, vv in k["match"].items()):
+        ok = True
+        for kk, vv in k["match"].items():
+            if kk.endswith("~"):
+                ok = ok and all(part in str(f.get(kk[:-1])) for part in (vv if isinstance(vv, list) else [vv]))
+            else:
+                ok = ok and str(f.get(kk)) == str(vv)
+        if ok:
             return k
     return None
 
@@ -144,6 +153,8 @@ def write_replay(prop, trace, finding, tag):
         e = json.loads(lines[k - 1])
         chain.append(lines[k - 1])
         k = e["parent"]
+        if k == 0 and (json.loads(e["callj"]) if "callj" in e else e["call"])["m"] != "instantiate":
+            raise ToolError("replay chain does not start at an instantiate line")
     chain.reverse()
     path = os.path.join(REPLAYS, f"{prop}-{tag}-line{i}.ndjson")
     with open(path, "w") as f:
@@ -185,7 +196,7 @@ def sample_lines(trace, k=2):
         for i, ln in enumerate(f):
             e = json.loads(ln)
             if e["call"]["m"] not in ("instantiate", "faucet", "time") and e["res"]["ok"]:
-                out.append({"call": e["call"], "ok": e["res"]["ok"], "msgs": e["res"]["msgs"][:4]})
+                out.append({"call": json.loads(e["callj"]) if "callj" in e else e["call"], "ok": e["res"]["ok"], "msgs": e["res"].get("msgs", [])[:4]})
                 if len(out) >= k:
                     break
     return out
@@ -278,16 +289,49 @@ def replay_edges(binp, name, workdir, sample_lines_target, seed):
         raise ToolError(f"no tests in {path}")
     sample_mod = max(1, nedges // max(1, sample_lines_target))
     res = []
+    K = 8 if nedges > 20000 else 1
     for target in resolve(name)[2]:
         out = os.path.join(workdir, f"tree-{name}-{target}.ndjson")
         t0 = time.time()
-        txt = mwh(binp, ["tree", path, out, sample_mod, seed, target], timeout=3000)
-        st = json.loads(txt.strip().splitlines()[-1])
+        procs = []
+        for k in range(K):
+            pout = f"{out}.part{k}"
+            procs.append((pout, subprocess.Popen([binp, "tree", path, pout, str(sample_mod), str(seed), target, str(k), str(K)],
+                                                 stdout=subprocess.PIPE, stderr=subprocess.PIPE, text=True)))
+        st = None
+        with open(out, "w") as merged:
+            offset = 0
+            for pout, pr in procs:
+                so, se = pr.communicate(timeout=3000)
+                if pr.returncode != 0:
+                    raise ToolError(f"harness tree failed: {se[-2000:]}")
+                d = json.loads(so.strip().splitlines()[-1])
+                nl = 0
+                for ln in open(pout):
+                    e = json.loads(ln)
+                    e["i"] += offset
+                    if e["parent"] > 0:
+                        e["parent"] += offset
+                    merged.write(json.dumps(e) + "\n")
+                    nl += 1
+                offset += nl
+                os.remove(pout)
+                if st is None:
+                    st = d
+                else:
+                    for key in ("executed", "ok", "refused", "mismatches", "logged", "lines"):
+                        st[key] += d[key]
+                    st["max_depth"] = max(st["max_depth"], d["max_depth"])
+                    st["first_mismatch"] = st["first_mismatch"] or d["first_mismatch"]
+                    for kk, vv in d["by_kind"].items():
+                        cur = st["by_kind"].setdefault(kk, {"ok": 0, "refused": 0})
+                        cur["ok"] += vv["ok"]
+                        cur["refused"] += vv["refused"]
         st["model"] = f"{name}@{target}"
         st["wall_s"] = round(time.time() - t0, 1)
         if st["executed"] != nedges:
             raise ToolError(f"replay executed {st['executed']} of {nedges} transitions of {name}")
-        log(f"[replay] {name}@{target}: {nedges} TLC-generated transitions executed on the real code in {st['wall_s']}s, "
+        log(f"[replay] {name}@{target}: {nedges} TLC-generated transitions executed on the real code in {st['wall_s']}s ({K} processes), "
             f"{st['mismatches']} digest mismatches, {st['lines']} lines kept for validation")
         res.append((out, st))
     return res
@@ -300,9 +344,10 @@ IBC = dict(mc_q=["ibc_q"], mc_t=["ibc_t"], emit_q=["ibc_q"], emit_t=["ibc_t"])
 GATE = dict(mc_q=["gate_q"], mc_t=["gate_t"], emit_q=["gate_q"], emit_t=["gate_t"])
 
 
-def plan(mc_q, mc_t, emit_q, emit_t, walks_q, walks_t, reach=(), scen=()):
+def plan(mc_q, mc_t, emit_q, emit_t, walks_q, walks_t, reach=(), scen=(), wide=None):
     return dict(mc={"quick": mc_q, "thorough": mc_t}, emit={"quick": emit_q, "thorough": emit_t},
-                walks={"quick": walks_q, "thorough": walks_t}, reach=list(reach), scen=list(scen))
+                walks={"quick": walks_q, "thorough": walks_t}, reach=list(reach), scen=list(scen),
+                wide=wide or {"quick": [], "thorough": []})
 
 
 W_Q = [("honest", 8, 60), ("chaos", 10, 60), ("admin", 6, 60)]
@@ -320,6 +365,9 @@ PLANS = {
     "C11": plan(["flow_q", "flow_treasury_q"], ["flow_t", "flow_treasury_t"], ["flow_treasury_q"], ["flow_t", "flow_treasury_t"], W_Q, W_T),
     "C12": plan(["own"], ["own_t"], ["own"], ["own_t"], [("admin", 10, 60)], [("admin", 150, 70)]),
     "C13": plan(["treasury_q"], ["treasury_t"], ["treasury_q"], ["treasury_t"], [], []),
+    "C16": plan(["flow_q", "gate_q"], ["flow_t", "ibc_t", "gate_t"], ["flow_treasury_q", "ibc_q", "gate_q", "own", "treasury_q"],
+                ["flow_t", "flow_treasury_t", "ibc_t", "gate_t", "own_t", "treasury_t"], W_Q, W_T,
+                wide={"quick": [(30, 60, 0), (30, 60, 1)], "thorough": [(400, 80, 0), (400, 80, 1)]}),
     "C15": plan(["flow_q", "flow_treasury_q"], ["flow_t", "flow_treasury_t"], ["flow_q", "flow_treasury_q"], ["flow_t", "flow_treasury_t"], W_Q, W_T),
 }
 LEVEL = "model_checking"
@@ -424,6 +472,11 @@ def run_property(prop, tier, seed):
         out = os.path.join(wd, f"walk-{mode}.ndjson")
         mwh(binp, ["walk", out, seed, runs, steps, mode])
         traces.append((out, f"walk-{mode}"))
+        nruns += runs
+    for runs, steps, extreme in pl["wide"][tier]:
+        out = os.path.join(wd, f"wide-{extreme}.ndjson")
+        mwh(binp, ["wide", out, seed, runs, steps, extreme])
+        traces.append((out, f"wide-{extreme}"))
         nruns += runs
     # 4. every recorded transaction against the specification
     total_lines = 0
